@@ -14,7 +14,7 @@ macro_rules! sr {
 }
 sr!(q, 0, 1);
 sr!(t, 0, 2);
-sr!(q, 0, 5);
+sr!(t, 0, 5);
 sr!(q, 1, 1);
 macro_rules! cc {
     ($tier:ident, $f:ident, $uk:ident) => { paste! {
